@@ -947,6 +947,7 @@ package raft
 //@   ensures #reads-kept [C11] old(reads_wf(r)) ==> reads_wf(r)
 //@   ensures #paused-noop [C16] old(r.trk.Progress[to].State == tracker.StateSnapshot || r.trk.Progress[to].MsgAppFlowPaused) ==> !result && r.msgs == old(r.msgs)
 //@        && r.trk.Progress[to].Next == old(r.trk.Progress[to].Next) && r.trk.Progress[to].State == old(r.trk.Progress[to].State)
+//@        && r.trk.Progress[to].PendingSnapshot == old(r.trk.Progress[to].PendingSnapshot)
 //@   ensures #one-message [C16] len(r.msgs) == old(len(r.msgs)) + (result ? 1 : 0) && (!result ==> r.msgs == old(r.msgs))
 //@   ensures #msgapp-header [C16 C03] result && lastMsg(r).GetType() == pb.MsgApp ==> lastMsg(r).GetTo() == to && lastMsg(r).GetTerm() == r.Term
 //@        && lastMsg(r).GetIndex() == old(r.trk.Progress[to].Next) - 1
@@ -977,6 +978,8 @@ package raft
 //@   ensures #at-most-one [C16] len(r.msgs) <= old(len(r.msgs)) + 1 && len(r.msgs) >= old(len(r.msgs))
 //@   ensures #deferred-untouched [C05] r.msgsAfterAppend == old(r.msgsAfterAppend)
 //@   ensures #match-kept [C06] r.trk.Progress[to].Match == old(r.trk.Progress[to].Match) && r.trk.Progress == old(r.trk.Progress)
+//@   ensures #snapshot-stays-pending [C16] old(r.trk.Progress[to].State == tracker.StateSnapshot) ==> r.msgs == old(r.msgs) && r.trk.Progress[to].State == tracker.StateSnapshot
+//@        && r.trk.Progress[to].PendingSnapshot == old(r.trk.Progress[to].PendingSnapshot)
 //@   ensures #rest raft_kept_but_msgs(r) && r.raftLog.committed == old(r.raftLog.committed)
 //@   ensures #wf wf_raft(r) && hs_monotone(r)
 
@@ -1642,6 +1645,7 @@ package raft
 //@   loop 1 invariant #pending-conf [C10] r.pendingConfIndex == old(r.pendingConfIndex)
 //@        || (log_last(r.raftLog) + 1 <= r.pendingConfIndex && r.pendingConfIndex < log_last(r.raftLog) + 1 + iter)
 //@   loop 1 invariant #types-same forall p int, e *pb.Entry :: {oldelem(m.Entries, p), old(e.GetType())} m.Entries.off <= p && p < m.Entries.off + len(m.Entries) && e == oldelem(m.Entries, p) ==> e.GetType() == old(e.GetType())
+//@   after proto.Unmarshal assert #entry-is-conf forall e *pb.Entry :: e == oldelem(m.Entries, m.Entries.off + i) ==> e == elem(m.Entries, m.Entries.off + i) && old(isConfEntry(e))
 //@   loop 1 invariant #pending-conf-is-conf [C10] r.pendingConfIndex != old(r.pendingConfIndex) ==>
 //@        (forall e *pb.Entry :: e == oldelem(m.Entries, m.Entries.off + (r.pendingConfIndex - log_last(r.raftLog) - 1)) ==> old(isConfEntry(e)))
 //@   loop 1 invariant #pending-conf-kept [C10] r.pendingConfIndex != old(r.pendingConfIndex) ==>
@@ -1672,6 +1676,11 @@ package raft
 //@   ensures #deferred-untouched [C05] old(m.GetType()) != pb.MsgProp ==> r.msgsAfterAppend == old(r.msgsAfterAppend)
 //@   ensures #clock-kept [C17] old(m.GetType() == pb.MsgBeat || m.GetType() == pb.MsgCheckQuorum) && r.state == StateLeader ==> r.electionElapsed == old(r.electionElapsed)
 //@        && r.heartbeatElapsed == old(r.heartbeatElapsed) && r.leadTransferee == old(r.leadTransferee)
+//@   -- C16: a pending snapshot is resolved only by a snapshot status report or a successful append response; in particular an
+//@   -- unreachable report, a heartbeat response, a rejection or a transfer request from that peer leave it pending, and nothing is appended to it
+//@   ensures #snapshot-stays-pending [C16] old(has(r.trk.Progress, m.GetFrom()) && r.trk.Progress[m.GetFrom()].State == tracker.StateSnapshot
+//@        && (m.GetType() == pb.MsgUnreachable || m.GetType() == pb.MsgHeartbeatResp || m.GetType() == pb.MsgTransferLeader || (m.GetType() == pb.MsgAppResp && m.GetReject())))
+//@        ==> (forall p *tracker.Progress :: p == old(r.trk.Progress[m.GetFrom()]) ==> p.State == tracker.StateSnapshot && p.PendingSnapshot == old(p.PendingSnapshot))
 //@   ensures #snap-status-keeps-match [C06] old(m.GetType() == pb.MsgSnapStatus || m.GetType() == pb.MsgUnreachable || m.GetType() == pb.MsgTransferLeader || m.GetType() == pb.MsgHeartbeatResp
 //@        || m.GetType() == pb.MsgBeat || m.GetType() == pb.MsgReadIndex || m.GetType() == pb.MsgForgetLeader || (m.GetType() == pb.MsgAppResp && m.GetReject())) ==> matches_kept(r)
 //@   ensures #match-only-up [C06] old(m.GetType() == pb.MsgAppResp && !m.GetReject() && has(r.trk.Progress, m.GetFrom())) ==> r.trk.Progress == old(r.trk.Progress)
